@@ -99,6 +99,18 @@ Section Ser.
   Variable compress : list N -> cres.
   Variable limit : N.       (* number of ids sqfs_id_table_id_to_index accepts (GenC01.c_id_table_limit) *)
 
+  (* sqfs_dir_writer_add_entry of the working tree.  C03's dw_add_entry predates the name length test
+     (strlen(name) > 0x10000 -> SQFS_ERROR_OVERFLOW, repo commit 86cfe5d); the tests are repeated here in the
+     order of the C code so that refusals agree exactly. *)
+  Definition dir_add_entry (w : dw) (name : list N) (inum iref mode : N) : res dw :=
+    match get_type mode with
+    | None => Err c_SQFS_ERROR_UNSUPPORTED
+    | Some _ =>
+      if (lenN name =? 0) || (inum <? 1) then Err c_SQFS_ERROR_ARG_INVALID
+      else if 65536 <? lenN name then Err c_SQFS_ERROR_OVERFLOW
+      else lift (dw_add_entry w name inum iref mode)
+    end.
+
   (* the for loop of write_dir_entries *)
   Fixpoint add_children (t : fstree) (refs : list N) (w : dw) (ch : list (list N * N)) : res dw :=
     match ch with
@@ -107,7 +119,7 @@ Section Ser.
       match get t c with
       | None => Crash            (* a child pointer always points at a node: excluded by [representable] *)
       | Some tgt =>
-        do w1 <- lift (dw_add_entry w name c (ref_of refs c) (fn_mode tgt));
+        do w1 <- dir_add_entry w name c (ref_of refs c) (fn_mode tgt);
         add_children t refs w1 r
       end
     end.
